@@ -1,6 +1,6 @@
 INIT Init
 NEXT Next
-CONSTANTS Thresholds <- ThThorough  ExtraKeys = 2  MaxBuckets = 3
+CONSTANTS Thresholds <- ThThorough  ExtraKeys = 3  MaxBuckets = 3
 VIEW Vw
 INVARIANT EmitI
 INVARIANT EmitS
